@@ -44,7 +44,8 @@ MANIFEST = {
             'values in the stated ranges and ALL data values, the sliced '
             'file equals the per-axis (or zipped) reference selection in '
             'data, masks, dimension names/lengths/unlimited flags and '
-            'attributes, and in-domain calls complete.',
+            'attributes, and in-domain calls complete.'
+            ' Also: masked variables with and without a declared fill value; for IOAPI files the TFLAG rows under index lists, stepped and contiguous windows of time steps.',
     'note': 'Trusted: z3, numpy indexing itself, the reference selection '
             'written in the harness from Python slice/negative-index rules. '
             'Shapes are bounded; symbolic selectors are covered by '
